@@ -285,6 +285,81 @@ class PathFormSpec(TreeSpec):
         return {'atoms': uniq, 'n': n, 'nontrivial': nontriv, 'outcomes': outcomes, 'case': {'tree': hist}}
 
 
+ROOT_TREES = [
+    {'a': None, 'b_c': None},
+    {'a': ('mod',), 'b_c': None},
+    {'a': ('pkg', ()), 'b_c': None},
+    {'a': ('pkg', (('a', ('mod',)), ('__main__', None))), 'b_c': ('mod',)},
+    {'a': ('ns', (('a', ('mod',)), ('__main__', None))), 'b_c': None},
+    {'a': ('mod+pkg', (('a', ('mod',)), ('__main__', ('mod',)))), 'b_c': ('pkg', ())},
+]
+
+
+def oracle_multi(roots, modname):
+    """the import system over several search path entries: the top-level name is bound by the first entry that provides it
+    as a regular module or package (namespace portions count as nothing, DESIGN 3.4); submodules are looked up in that
+    package only"""
+    top = modname.split('.')[0]
+    for r in roots:
+        if oracle(r, top) is not None:
+            return oracle(r, modname)
+    return None
+
+
+class MultiRootSpec(TreeSpec):
+    """two search path entries: a name bound by the first entry is not looked up in the second one (known finding F49: the
+    library checks the whole dotted path in every entry on its own)"""
+    title = 'pairs of directory trees as two search path entries x dotted names'
+
+    def __init__(self, name):
+        TreeSpec.__init__(self, name, 1)
+        self.rule = ('all ordered pairs of %d trees as sys_path=[A, B] x all dotted names of <= 3 components over %r; expected = first '
+                     'entry that binds the top-level name as a regular module / package, resolved part by part with FileFinder; '
+                     'non-trivial = both entries hold something of that top-level name' % (len(ROOT_TREES), LOOKUP))
+
+    def histories(self, stats):
+        for i in range(len(ROOT_TREES)):
+            for j in range(len(ROOT_TREES)):
+                yield (i, j)
+
+    def run_case(self, hist):
+        from xdoctest.utils import util_import
+        atoms = []
+        n = nontriv = 0
+        outcomes = {'found': 0, 'absent': 0}
+        with harness.scratch_dir('c17m') as base:
+            roots = [os.path.join(base, 'A'), os.path.join(base, 'B')]
+            for r, i in zip(roots, hist):
+                materialize(r, tuple(sorted(ROOT_TREES[i].items())))
+            importlib.invalidate_caches()
+            for nm in self.lookup():
+                n += 1
+                exp = oracle_multi(roots, nm)
+                try:
+                    got = util_import.modname_to_modpath(nm, sys_path=list(roots))
+                except Exception as ex:
+                    atoms.append({'sig': 'multiroot:raises:' + type(ex).__name__, 'msg': '%s: %r' % (nm, ex)})
+                    continue
+                outcomes['found' if got else 'absent'] += 1
+                top = nm.split('.')[0]
+                if all(os.path.exists(os.path.join(r, top)) or os.path.exists(os.path.join(r, top + '.py')) for r in roots):
+                    nontriv += 1
+                if (exp and os.path.realpath(exp)) != (got and os.path.realpath(got)):
+                    if got and not exp and oracle(roots[0], top) is not None and os.path.realpath(got).startswith(os.path.realpath(roots[1])):
+                        sig = 'multiroot:finds-submodule-in-a-later-entry-although-an-earlier-entry-binds-the-package'
+                    else:
+                        sig = 'multiroot:' + ('finds-what-python-would-not' if got and not exp else ('misses-importable' if exp and not got else 'other-file'))
+                    atoms.append({'sig': sig, 'msg': 'modname_to_modpath(%r, sys_path=[A, B]) = %r, the import system finds %r' % (
+                        nm, got and os.path.relpath(got, base), exp and os.path.relpath(exp, base))})
+        seen = set()
+        uniq = []
+        for a in atoms:
+            if a['sig'] not in seen:
+                seen.add(a['sig'])
+                uniq.append(a)
+        return {'atoms': uniq, 'n': n, 'nontrivial': nontriv, 'outcomes': outcomes, 'case': {'A': ROOT_TREES[hist[0]], 'B': ROOT_TREES[hist[1]]}}
+
+
 ODD = ['z__init__', 'y__main__', '__init__z', 'a']
 
 
@@ -485,5 +560,5 @@ class EditSpec(Spec):
 
 def specs(tier):
     if tier == 'thorough':
-        return [TreeSpec('trees-depth1', 1), TreeSpec('trees-depth2-wide', 2, wide=True), OddNameSpec('odd-names'), ShadowSpec(), EditSpec('edits<=3', 3), PathFormSpec('path-forms'), PathFormSpec('path-forms-depth2', depth=2)]
-    return [TreeSpec('trees-depth1', 1), TreeSpec('trees-depth2', 2), OddNameSpec('odd-names'), ShadowSpec(), EditSpec('edits<=2', 2), PathFormSpec('path-forms')]
+        return [TreeSpec('trees-depth1', 1), TreeSpec('trees-depth2-wide', 2, wide=True), OddNameSpec('odd-names'), ShadowSpec(), EditSpec('edits<=3', 3), PathFormSpec('path-forms'), PathFormSpec('path-forms-depth2', depth=2), MultiRootSpec('two-entries')]
+    return [TreeSpec('trees-depth1', 1), TreeSpec('trees-depth2', 2), OddNameSpec('odd-names'), ShadowSpec(), EditSpec('edits<=2', 2), PathFormSpec('path-forms'), MultiRootSpec('two-entries')]
